@@ -4099,6 +4099,15 @@ py_statements = [
         ],
         arg_call=["&{cxx_var}"],
     ),
+    dict(
+        name="py_native_*&_out_pointer_list",
+        base="py_native_**_out_pointer_list",
+        arg_call=["{cxx_var}"],
+    ),
+    dict(
+        name="py_native_*_result_allocatable_list",
+        base="py_native_*_result_pointer_list",
+    ),
     
 ########################################
 ## allocatable
